@@ -71,7 +71,7 @@ MANIFEST = {
             "select_best on/off): per-step top-k audit of the kept expansions from tapped tensors, feasibility and "
             "independent reward of every beam on its own instance, distinctness, exact agreement of the beams' per-step "
             "log-probs with a replay of the same sequences through env + decoder, and best-beam selection against the "
-            "beams tapped inside the same call. Exploration over instances x widths x batch sizes.",
+            "beams tapped inside the same call. Exploration over instances x widths x batch sizes. Also: decoding temperature != 1 (call / constructor), policy-object histories (earlier calls with the same number of beam rows), the non-autoregressive heat-map policy under beam search.",
     "note": "Taps wrap BeamSearch._make_beam_step / _select_best_beam on the strategy instance captured from ConstructivePolicy.forward.",
     "technique": "runtime monitoring: taps on beam-search internals, per-step top-k audit, replay of every returned beam through the real env and decoder",
     "design_ref": "DESIGN.md section 4 / C13",
